@@ -353,6 +353,9 @@ func (r *SliceRes) visitMem(locs []Loc, opt *SliceOpt, depth int) {
 				continue
 			}
 			r.Writes[w] = true
+			if cv, ok := w.Instr.(ssa.Value); ok && w.Call {
+				r.Seen[cv] = true // the call that filled the location is part of its provenance
+			}
 			for _, x := range w.Vals {
 				r.visit(x, opt, depth+1)
 			}
